@@ -19,6 +19,7 @@ import (
 type Ent struct {
 	Key   int    `json:"key"`            // key role: 0 = A, 1 = B, ...
 	ByKey bool   `json:"by_key"`         // address by public key instead of by name
+	Pad   bool   `json:"pad,omitempty"`  // with ByKey: the public key followed by one extra byte (the account lookup uses the first 48 bytes)
 	S     uint64 `json:"s"`              // source epoch (attestations)
 	T     uint64 `json:"t"`              // target epoch (attestations)
 	Slot  uint64 `json:"slot"`           // slot (proposals)
@@ -40,6 +41,9 @@ func (o SOp) String() string {
 		addr := "n"
 		if e.ByKey {
 			addr = "k"
+		}
+		if e.Pad {
+			addr = "k+"
 		}
 		if o.Kind == "prop" {
 			fmt.Fprintf(&sb, " %c%s(slot=%d,r%d,d%d)", 'A'+e.Key, addr, e.Slot, e.Root, e.Dom)
@@ -257,6 +261,9 @@ func (w *SigWorker) Continue(tr *Trace, path []SOp, verifyLast bool) error {
 			var pk []byte
 			if e.ByKey {
 				pk = a.PubBytes()
+				if e.Pad {
+					pk = append(pk, 0x00)
+				}
 			} else {
 				name = "Wallet 1/" + a.Name()
 			}
@@ -271,6 +278,9 @@ func (w *SigWorker) Continue(tr *Trace, path []SOp, verifyLast bool) error {
 				a := accts[e.Key]
 				if e.ByKey {
 					pks[i] = a.PubBytes()
+					if e.Pad {
+						pks[i] = append(pks[i], 0x00)
+					}
 				} else {
 					names[i] = "Wallet 1/" + a.Name()
 				}
@@ -301,6 +311,9 @@ func (w *SigWorker) Continue(tr *Trace, path []SOp, verifyLast bool) error {
 			var pk []byte
 			if e.ByKey {
 				pk = a.PubBytes()
+				if e.Pad {
+					pk = append(pk, 0x00)
+				}
 			} else {
 				name = "Wallet 1/" + a.Name()
 			}
